@@ -39,7 +39,7 @@ struct G<'a> {
     frag: bool,
 }
 
-const LET_TYS: [T; 10] = [T::I, T::I, T::I, T::B, T::B, T::O, T::E, T::R, T::L, T::S];
+const LET_TYS: [T; 11] = [T::I, T::I, T::I, T::B, T::B, T::O, T::E, T::R, T::R, T::L, T::S];
 
 impl G<'_> {
     fn fresh(&mut self, t: T, assignable: bool) -> usize {
@@ -339,6 +339,20 @@ impl G<'_> {
     fn unit_expr(&mut self, d: u32) -> E {
         let asg = self.assignable();
         match self.p.below(100) {
+            // the target is a field of a variable of type `R` (`x.f = e`, `x.f op= e`)
+            24..=29 | 48..=54 if asg.iter().any(|x| self.var_tys[*x] == T::R) => {
+                let recs: Vec<usize> = asg.iter().copied().filter(|x| self.var_tys[*x] == T::R).collect();
+                let x = *self.p.pick(&recs);
+                let i = self.p.below(FIELDS.len() as u64) as usize;
+                if self.p.chance(1, 2) {
+                    let v = self.expr(T::I, d);
+                    E::AssignF(x, i, Box::new(v))
+                } else {
+                    let op = *self.p.pick(&[Op::Add, Op::Sub, Op::Mul]);
+                    let v = self.expr(T::I, d);
+                    E::CAssignF(op, x, i, Box::new(v))
+                }
+            }
             0..=29 if !asg.is_empty() => {
                 let x = *self.p.pick(&asg);
                 let v = self.expr(self.var_tys[x], d);
